@@ -476,6 +476,21 @@ func (e *Env) evalBinary(x *Expr) TV {
 		case b.V == nil && x.Args[1].Kind == "nil":
 			r = e.ex.isNilVal(e.cur, a.V, a.T)
 		default:
+			ta, okA := a.V.(*TupleV)
+			tb, okB := b.V.(*TupleV)
+			if okA && okB && len(ta.Elems) == len(tb.Elems) {
+				var cs []*Term
+				for i := range ta.Elems {
+					var et types.Type
+					if tt, ok := a.T.(*types.Tuple); ok {
+						et = tt.At(i).Type()
+					}
+					x, y := e.toTerm(TV{ta.Elems[i], et}), e.toTerm(TV{tb.Elems[i], et})
+					cs = append(cs, Eq(x, y))
+				}
+				r = And(cs...)
+				break
+			}
 			at, bt := e.toTerm(a), e.toTerm(b)
 			if at.Sort != bt.Sort {
 				efail("comparison of %s with %s", at.Sort.Name, bt.Sort.Name)
@@ -582,7 +597,7 @@ func (e *Env) evalCall(x *Expr) TV {
 		if sp, ok := e.ex.contracts.Specs[f.Val]; ok {
 			return e.applySpec(sp, args)
 		}
-		if strings.HasPrefix(f.Val, "eff_") || strings.HasPrefix(f.Val, "q_") || strings.HasPrefix(f.Val, "ext_") || strings.HasPrefix(f.Val, "cmd_") {
+		if _, isUF := ufTable[f.Val]; isUF || strings.HasPrefix(f.Val, "eff_") || strings.HasPrefix(f.Val, "q_") || strings.HasPrefix(f.Val, "ext_") || strings.HasPrefix(f.Val, "cmd_") {
 			// uninterpreted dependency symbol used by the executor (effects, queries)
 			if d, ok := ufTable[f.Val]; ok {
 				var ts []*Term
@@ -622,6 +637,41 @@ func (e *Env) evalCall(x *Expr) TV {
 		recv := e.eval(f.Args[0])
 		if recv.T == nil {
 			efail("method call on untyped value")
+		}
+		if it, isI := recv.T.Underlying().(*types.Interface); isI {
+			// dependency interface: same uninterpreted symbols as the executor uses at call sites
+			for i := 0; i < it.NumMethods(); i++ {
+				m := it.Method(i)
+				if m.Name() != f.Val {
+					continue
+				}
+				sig := m.Type().(*types.Signature)
+				var vals []Val
+				for _, a := range args {
+					vals = append(vals, e.eval(a).V)
+				}
+				st2 := e.cur.Clone()
+				save := e.ex.specMode
+				e.ex.specMode++
+				name := "(" + types.TypeString(recv.T, nil) + ")." + m.Name()
+				rs := e.ex.callExternal(nil, name, sig, recv.V, vals, st2, nil)
+				e.ex.specMode = save
+				for _, d := range rs[0].st.defs {
+					if !d.hasBV {
+						e.cur.AssumeDef(d)
+					}
+				}
+				var rt types.Type
+				switch sig.Results().Len() {
+				case 0:
+				case 1:
+					rt = sig.Results().At(0).Type()
+				default:
+					rt = sig.Results()
+				}
+				return TV{rs[0].ret, rt}
+			}
+			efail("no method %s on interface %s", f.Val, recv.T.String())
 		}
 		ms := e.ex.prog.MethodSets.MethodSet(recv.T)
 		sel := ms.Lookup(e.pkgOf(recv.T), f.Val)
@@ -677,7 +727,27 @@ func (e *Env) callExternal(pkg *types.Package, name string, args []*Expr) TV {
 func (e *Env) callGo(fn *ssa.Function, recv *TV, args []*Expr) TV {
 	var vals []Val
 	if recv != nil {
-		vals = append(vals, recv.V)
+		rv := recv.V
+		var rtyp types.Type
+		if fn.Signature.Recv() != nil {
+			rtyp = fn.Signature.Recv().Type()
+		} else if len(fn.Params) > 0 {
+			rtyp = fn.Params[0].Type()
+		}
+		if rtyp == nil {
+			efail("method %s without receiver type", fn.Name())
+		}
+		if pt, ok := rtyp.Underlying().(*types.Pointer); ok {
+			if t, isT := rv.(*Term); isT && t.Sort == sortOf(pt.Elem()) {
+				o := e.cur.NewObj("specrecv", pt.Elem(), t)
+				rv = &PtrV{Obj: o}
+			}
+		} else if p, isP := rv.(*PtrV); isP {
+			rv = e.ex.load(e.cur, p)
+		} else if t, isT := rv.(*Term); isT && isOptSort(t.Sort) && t.Sort != sortOf(rtyp) {
+			rv = OptVal(t)
+		}
+		vals = append(vals, rv)
 	}
 	sig := fn.Signature
 	for i, a := range args {
@@ -685,8 +755,15 @@ func (e *Env) callGo(fn *ssa.Function, recv *TV, args []*Expr) TV {
 		_ = i
 		vals = append(vals, tv.V)
 	}
-	if len(vals) != len(fn.Params) {
-		efail("call of %s with %d arguments, want %d", fn.Name(), len(vals), len(fn.Params))
+	want := sig.Params().Len()
+	if sig.Recv() != nil {
+		want++
+	}
+	if fn.Blocks != nil {
+		want = len(fn.Params)
+	}
+	if len(vals) != want {
+		efail("call of %s with %d arguments, want %d", fn.Name(), len(vals), want)
 	}
 	// coerce spec-level terms to executor conventions
 	for i, p := range fn.Params {
